@@ -10,7 +10,7 @@ Open Scope N_scope.
 Lemma spec_insert_eq hdr bs name v :
   spec_insert hdr bs (name, v) =
   let limit0 := get32 bs hdr in
-  let cur := if limit0 =? 0 then (first_off hdr + 31) / 32 * 32 else limit0 in
+  let cur := ((if limit0 =? 0 then first_off hdr else limit0) + 31) / 32 * 32 in
   let n := rec_size (len name) in
   let s := spec_place cur n in
   let e := s + n in
@@ -19,7 +19,8 @@ Lemma spec_insert_eq hdr bs name v :
 Proof.
   unfold spec_insert, link_record. cbv zeta. change c_limitOff with 0. rewrite !N.add_0_r.
   change c_recordUnit with 32. change c_pageSize with 16384.
-  replace (first_off hdr + 32 - 1) with (first_off hdr + 31) by lia.
+  replace ((if get32 bs hdr =? 0 then first_off hdr else get32 bs hdr) + 32 - 1)
+    with ((if get32 bs hdr =? 0 then first_off hdr else get32 bs hdr) + 31) by lia.
   set (e := spec_place _ _ + _).
   replace (e + 16384 - 1) with (e + 16383) by lia.
   destruct (len bs <? e); [reflexivity|]. now rewrite zeros_0, app_nil_r.
@@ -46,9 +47,9 @@ Section Insert.
     pose proof (rec_size_bounds _ Hname) as (R1 & R2 & R3).
     pose proof (first_off_val hdr) as Efo.
     rewrite spec_insert_eq. cbv zeta. rewrite <- El.
-    set (cur := if limit =? 0 then (first_off hdr + 31) / 32 * 32 else limit).
+    set (cur := ((if limit =? 0 then first_off hdr else limit) + 31) / 32 * 32).
     assert (Hcur : cur mod 32 = 0 /\ (if limit =? 0 then first_off hdr else limit) <= cur /\ cur <= len bs).
-    { unfold cur. destruct (N.eqb_spec limit 0); [|repeat split; lia]. split; [|split]; divlia. }
+    { unfold cur. destruct (N.eqb_spec limit 0); split; [|split| |split]; divlia. }
     destruct Hcur as (C1 & C2 & C3).
     pose proof (spec_place_ok cur (rec_size (len name)) C1 R1 R3) as P. cbv zeta in P.
     set (s := spec_place cur (rec_size (len name))) in *.
